@@ -21,6 +21,8 @@ CHECK = {
     ],
     "opts": {"unwind": 8, "substitute": SUB, "go_inline": True},
     "stop": [k for k in SUB.keys() if "ReceiveContext" in k] + [P + "spawnSubPipeline"],
-    "explanation": "TODO",
-    "bounds": {},
+    "explanation": 'Per-actor one-step contracts for every junction (fallback kernel of DESIGN C46). Real code executed symbolically: Broadcast/Balance/Partition constructors, sharedBroadcast/sharedBalance/sharedPartition.registerSlot, broadcast/balance/partitionSlotActor.Receive and broadcast/balance/partitionHubActor.Receive/maybePull/minDemand/totalDemand (2 branches); Merge/Concat/Zip constructors, mergeSourceActor, concatSourceActor (spawnNext), zipNSourceActor (tryEmit/allReady) with 2 inputs, and the internal sink built by makeMergeSinkDesc (real sinkActor + closures). Each entry wires the actors through their real stageWire arms, puts the actor into an arbitrary state satisfying a stated invariant, delivers one arbitrary protocol message and asserts the statement-level relation: Broadcast: every active branch gets the element once; Balance: exactly one branch, the next with demand in round-robin order; Partition: the branch fn selects (out-of-range/cancelled: dropped, as documented); hubs pull exactly what branches can absorb and in-flight elements stay covered by branch demand; branch heads relay demand/elements/termination unchanged; Merge/Concat: elements leave in arrival order (hence per-source order), Concat starts source i+1 exactly when source i reported done, completion once all sources are done and the buffer drained; Zip: positional pairs, min(demand, shortest buffer) tuples, completion when a finished input has nothing left. Substitutions: ReceiveContext.Tell/Shutdown/Unhandled, actor.Tell -> recorders; spawnSubPipeline -> recorder of the stage list (the harness instantiates the junction-made hub / internal sink from it); newStageID -> constant; go statements inlined.',
+    "bounds": {"branches / inputs": 2, "per-branch demand": "0..3", "pending upstream": "0..3", "slotDemand n": "1..3", "buffered elements": "<= 2 per buffer", "downstream demand": "<= 3", "values": "any int"},
+    "assumptions": ["per-actor contracts; the composition (sub-pipelines feeding the junction, per-sender FIFO) is argued, not encoded",
+                    "go statements run inline; MergeLatest/MergeSequence/MergePreferred/Combine/Unzip/FlatMapConcat are outside the claim"],
 }
